@@ -73,7 +73,10 @@ func SeencheckItem(item *models.Item) error {
 	for i := range items {
 		found := false
 		for j := range outputURLs {
-			if items[i].GetURL().String() == outputURLs[j].Value {
+			// Compare with what was sent (the raw URL), not with the re-encoded canonical string:
+			// they differ e.g. for a query with an escaped space, and the item would be marked as seen
+			// although HQ reported it as new
+			if items[i].GetURL().Raw == outputURLs[j].Value {
 				found = true
 				break
 			}
